@@ -347,6 +347,11 @@ func scenarios(r *vh.Rand, thorough bool) []scenario {
 	add("sleep/polled->stop", "sleep", []string{"stop"}, true, map[string]string{"sleep_state.json": polled})
 	add("sleep/awake->seq-stop", "sleep", []string{"seq-stop"}, true, map[string]string{"sleep_state.json": awake})
 	add("sleep/sleeping->seq-stop", "sleep", []string{"seq-stop"}, true, map[string]string{"sleep_state.json": sleeping, "sleep_state.json.tmp": garbage})
+	// a long stale temporary file (what a save killed before its rename leaves), then a save of a shorter document
+	tn0, tn1 := t0.Add(123456789*time.Nanosecond), t1.Add(987654321*time.Nanosecond)
+	longDoc := sleepContent(sleep.StatePolling, tn0, tn1, 18446744073709551615)
+	add("sleep/sleeping->wake+long-stale-tmp", "sleep", []string{"wake"}, true, map[string]string{"sleep_state.json": sleepContent(sleep.StateSleeping, tn0, tn1, seq), "sleep_state.json.tmp": longDoc + hexs("\n\n  trailing")})
+	add("sleep/awake->sleep+long-stale-tmp", "sleep", []string{"sleep"}, true, map[string]string{"sleep_state.json": awake, "sleep_state.json.tmp": longDoc + longDoc})
 	add("sleep/no-dir", "sleep", []string{"sleep"}, false, nil)
 	if thorough {
 		for i := 0; i < 12; i++ {
@@ -386,7 +391,12 @@ func restartArgs(sc scenario, dir string) []string {
 // one crash experiment
 
 // recorder buffers what a scenario wants to report so that scenarios can run concurrently
-type recorder struct{ ops []func() }
+type recorder struct {
+	ops []func()
+	// sleep scenarios: the directory a process killed after k mutating calls left behind
+	crashStates map[int]snapshot
+	script      []sysop
+}
 
 func (r *recorder) do(f func()) { r.ops = append(r.ops, f) }
 
@@ -445,7 +455,7 @@ func main() {
 	// scenarios are independent: run them on a few workers, then replay what
 	// they recorded (cases, counters, failures) in scenario order
 	recs := make([]*recorder, len(scs))
-	sem := make(chan struct{}, 4)
+	sem := make(chan struct{}, 8)
 	var wg sync.WaitGroup
 	for i, sc := range scs {
 		recs[i] = &recorder{}
@@ -460,11 +470,65 @@ func main() {
 		}(i, sc)
 	}
 	wg.Wait()
-	for _, r := range recs {
+	// histories with two crashes: the directory a killed save left behind (temporary
+	// file written, not yet renamed; and truncated only) is the starting point of a
+	// restart followed by another transition, whose save is again killed at every
+	// point (crash, restart, transition, crash, restart)
+	var second []scenario
+	if c.Replay == "" {
+		for i, sc := range scs {
+			if sc.Routine != "sleep" || strings.Contains(sc.Name, " ; ") {
+				continue
+			}
+			for _, k := range []int{2, 1} {
+				st, ok := recs[i].crashStates[k]
+				if !ok || len(recs[i].script) != 3 {
+					continue
+				}
+				before := sleepView{}
+				if h, ok := st.Files["sleep_state.json"]; ok {
+					if v, ok := parseSleep(h); ok {
+						before = v
+					}
+				}
+				ops2 := []string{"sleep"}
+				if before.State != 0 {
+					ops2 = []string{"wake", "poll", "stop"}
+				}
+				op2 := ops2[(i+k)%len(ops2)]
+				if k == 2 && before.State != 0 {
+					op2 = "wake" // the shortest document after the longest one
+				}
+				if !c.Thorough() && len(second) >= 6 {
+					break
+				}
+				second = append(second, scenario{Name: fmt.Sprintf("%s ; killed after %d calls ; restart, then %s", sc.Name, k, op2), Routine: "sleep", Args: []string{op2}, Init: st})
+				if !c.Thorough() {
+					break
+				}
+			}
+		}
+	}
+	recs2 := make([]*recorder, len(second))
+	for i, sc := range second {
+		recs2[i] = &recorder{}
+		wg.Add(1)
+		go func(i int, sc scenario) {
+			defer wg.Done()
+			sem <- struct{}{}
+			defer func() { <-sem }()
+			w := filepath.Join(work, fmt.Sprintf("t%d", i))
+			os.MkdirAll(w, 0o755)
+			runScenario(c, col, sc, w, filepath.Join(w, "data"), recs2[i])
+		}(i, sc)
+	}
+	wg.Wait()
+	for _, r := range append(recs, recs2...) {
 		for _, f := range r.ops {
 			f()
 		}
 	}
+	c.Res.Extra["two_crash_histories"] = len(second)
 	col.write(c)
 }
 
@@ -500,6 +564,11 @@ func runScenario(c *vh.Ctx, col *collector, sc scenario, work, dataDir string, r
 	r.do(func() { c.Count(fmt.Sprintf("script-length/%d", len(script))) })
 	r.do(func() { col.addRun(c, sc, script, clean.Out, final) })
 	r.do(func() { monitorCompleted(c, sc, clean.Out, final) })
+	// the next start after the COMPLETED run must see what that run left (for the
+	// sleep state: the state the completed save wrote)
+	again := runHelper(work, nil, restartArgs(sc, dataDir)...)
+	r.do(func() { monitorAfterCompleted(c, sc, clean.Out, again.Out) })
+	r.script = script
 
 	// 2. one killed run per mutating system call
 	covered := map[int]bool{}
@@ -552,6 +621,10 @@ func runScenario(c *vh.Ctx, col *collector, sc scenario, work, dataDir string, r
 			after := snap(dataDir)
 			rr := runHelper(work, nil, restartArgs(sc, dataDir)...)
 			afterR := snap(dataDir)
+			if r.crashStates == nil {
+				r.crashStates = map[int]snapshot{}
+			}
+			r.crashStates[k] = after
 			cc := crashCase{Scenario: sc, Script: script, Killed: ops, K: k, AfterCrash: after, Restart: rr.Out, AfterRstart: afterR}
 			r.do(func() { col.addCrash(c, cc) })
 			r.do(func() { monitorCrash(c, cc, clean.Out) })
@@ -599,6 +672,46 @@ func monitorCompleted(c *vh.Ctx, sc scenario, o *helperOut, final snapshot) {
 	case "id":
 		if stored, ok := decodeFile(sc.Init, "agent_id"); ok && stored != o.ID {
 			c.Fail("agent-id-replaced-after-crash", sc.Name+": agent_id was in place at start, the start uses a different one", sc)
+		}
+	}
+}
+
+// monitorAfterCompleted: a routine ran to completion (possibly on a directory an
+// earlier crash left behind); the next start must succeed and see its result.
+func monitorAfterCompleted(c *vh.Ctx, sc scenario, done, next *helperOut) {
+	if done == nil || !done.OK {
+		return
+	}
+	if next == nil || !next.OK {
+		c.Fail("restart-fails", sc.Name+": the start after a completed run fails", sc)
+		return
+	}
+	switch sc.Routine {
+	case "id":
+		if next.ID != done.ID {
+			c.Fail("identity-changed-after-completed-start", sc.Name+": the next start uses another agent id", sc)
+		}
+	case "keypair":
+		if next.Priv != done.Priv || next.Pub != done.Pub {
+			c.Fail("identity-changed-after-completed-start", sc.Name+": the next start uses another keypair", sc)
+		}
+	case "sleep":
+		before := sleepView{}
+		if h, ok := sc.Init.Files["sleep_state.json"]; ok {
+			if v, ok := parseSleep(h); ok {
+				before = v
+			}
+		}
+		wantSeq := before.Seq
+		if len(sc.Args) > 0 && sc.Args[0] == "seq-stop" {
+			wantSeq += 2
+		}
+		if !sc.Init.Dir {
+			return // nothing can be saved without the data directory
+		}
+		if next.State != done.State || next.SleepAt != done.SleepAt || next.PollAt != done.PollAt || next.Seq != wantSeq {
+			c.Fail("sleep-state-lost-after-completed-save", fmt.Sprintf("%s: the save completed with state=%d sleep_at=%q poll_at=%q seq=%d, the next start reports state=%d sleep_at=%q poll_at=%q seq=%d",
+				sc.Name, done.State, done.SleepAt, done.PollAt, wantSeq, next.State, next.SleepAt, next.PollAt, next.Seq), sc)
 		}
 	}
 }
